@@ -42,13 +42,24 @@ DIRECTED = c14.DIRECTED + [
 ]
 
 
+# a variable is predicted where another production waits for the terminal of the same spelling (pool "clash": A is "a")
+CLASH_DIRECTED = [
+    [["S", ["b", "A"]], ["S", ["b", "a", "b"]], ["A", ["b"]]],
+    [["S", ["A", "b"]], ["S", ["a", "a"]], ["A", ["b", "b"]]],
+    [["S", ["B", "A"]], ["S", ["B", "a", "a"]], ["A", ["b"]], ["B", ["a"]], ["B", ["b", "a"]]],
+    [["S", ["a", "S"]], ["S", ["a", "b", "a"]], ["S", ["B"]], ["B", ["a", "a"]]],
+]
+
+
 def generate(tier, seed, work, stats):
     cases = [c for c in c08.grammar_cases(tier, seed, work, stats, families(tier), [("upper", "ab")])
              if c["family"] != "directed"]
     for prods in DIRECTED:
         cases.append(dict(prods=prods, vpool="upper", tpool="ab", family="directed"))
     for prods in c08.random_grammars(1500 if tier == "quick" else 20000, seed + 15, maxp=5, maxb=3):
-        cases.append(dict(prods=prods, vpool="upper", tpool="ab", family="random"))
+        cases.append(dict(prods=prods, vpool="upper", tpool="ab", family="random", clash=True))
+    for prods in CLASH_DIRECTED:
+        cases.append(dict(prods=prods, vpool="upper", tpool="ab", family="directed-clash", clash=True))
     for c in cases:
         c["L"] = 4
     return cases
